@@ -42,15 +42,14 @@ Qed.
 Theorem safe_cast_correct from to c :
   rep4 (d_rep from) -> rep4 (d_rep to) -> wf_dty from -> wf_dty to ->
   d_num from * d_den to <= 4611686018427387904 -> d_den from * d_num to <= 4611686018427387904 ->
-  fits (d_rep from) c = true -> simple_ratio from to ->
-  ~ defect_N1 from to c -> ~ defect_N2 from to c -> cast_spec from to c.
+  fits (d_rep from) c = true -> simple_ratio from to -> cast_spec from to c.
 Proof.
-  intros Hsr Htr Hwf Hwt Hbn Hbd Hc Hsimple HN1 HN2.
+  intros Hsr Htr Hwf Hwt Hbn Hbd Hc Hsimple.
   unfold cast_spec. rewrite safe_cast_unfold.
   destruct (dty_eqb from to) eqn:Eeq.
   { apply dty_eqb_eq in Eeq. subst to. split; [exact Hc | unfold exact_cast; ring]. }
   destruct (ratio_div_props from to Hwf Hwt) as (g & Hg & En & Ed & Bn & Bd).
-  unfold simple_ratio, defect_N1, defect_N2 in *.
+  unfold simple_ratio in *.
   destruct (ratio_div from to) as [num den]. cbn [fst snd] in *.
   assert (Hex : forall v, exact_cast from to c v <-> v * den = c * num).
   { intros v. unfold exact_cast. rewrite En, Ed. split; intros H; nia. }
@@ -66,8 +65,6 @@ Proof.
       * intros v Hv Hx. apply Hex in Hx. assert (v = c * num) by lia. subst v. congruence.
   - destruct (Z.eqb_spec num 1) as [Enum|Enum]; [|lia]. subst num.
     rewrite scC_spec; try assumption; try lia.
-    2:{ intros (H1 & H2 & H3). apply HN1. repeat split; assumption. }
-    2:{ intros (H1 & H2 & H3). apply HN2. repeat split; assumption. }
     pose proof (Z.quot_rem' c den) as Eq. pose proof (Z.rem_bound_abs c den ltac:(lia)) as Br.
     set (q := Z.quot c den) in *. set (r := Z.rem c den) in *. clearbody q r.
     destruct (Z.eqb_spec r 0) as [Er|Er]; cbn [andb].
@@ -314,11 +311,10 @@ Theorem safe_cast_complete from to c v :
   rep4 (d_rep from) -> rep4 (d_rep to) -> wf_dty from -> wf_dty to ->
   d_num from * d_den to <= 4611686018427387904 -> d_den from * d_num to <= 4611686018427387904 ->
   fits (d_rep from) c = true -> simple_ratio from to ->
-  ~ defect_N1 from to c -> ~ defect_N2 from to c ->
   fits (d_rep to) v = true -> exact_cast from to c v -> safe_cast from to c = Ok v.
 Proof.
-  intros Hsr Htr Hwf Hwt Hbn Hbd Hc Hs HN1 HN2 Hv Hx.
-  pose proof (safe_cast_correct from to c Hsr Htr Hwf Hwt Hbn Hbd Hc Hs HN1 HN2) as H.
+  intros Hsr Htr Hwf Hwt Hbn Hbd Hc Hs Hv Hx.
+  pose proof (safe_cast_correct from to c Hsr Htr Hwf Hwt Hbn Hbd Hc Hs) as H.
   unfold cast_spec in H. destruct (safe_cast from to c) as [v'|e|k|]; try contradiction.
   - destruct H as [_ Hx']. unfold exact_cast in *. destruct Hwf, Hwt. f_equal. nia.
   - destruct e; try contradiction. exfalso. exact (H v Hv Hx).
@@ -329,11 +325,10 @@ Theorem safe_cast_reject from to c :
   rep4 (d_rep from) -> rep4 (d_rep to) -> wf_dty from -> wf_dty to ->
   d_num from * d_den to <= 4611686018427387904 -> d_den from * d_num to <= 4611686018427387904 ->
   fits (d_rep from) c = true -> simple_ratio from to ->
-  ~ defect_N1 from to c -> ~ defect_N2 from to c ->
   (forall v, fits (d_rep to) v = true -> ~ exact_cast from to c v) -> safe_cast from to c = Err OutOfRange.
 Proof.
-  intros Hsr Htr Hwf Hwt Hbn Hbd Hc Hs HN1 HN2 Hno.
-  pose proof (safe_cast_correct from to c Hsr Htr Hwf Hwt Hbn Hbd Hc Hs HN1 HN2) as H.
+  intros Hsr Htr Hwf Hwt Hbn Hbd Hc Hs Hno.
+  pose proof (safe_cast_correct from to c Hsr Htr Hwf Hwt Hbn Hbd Hc Hs) as H.
   unfold cast_spec in H. destruct (safe_cast from to c) as [v'|e|k|]; try contradiction.
   - destruct H as [Hf Hx]. exfalso. exact (Hno v' Hf Hx).
   - destruct e; try contradiction. reflexivity.
